@@ -571,9 +571,19 @@ def insert_closures(text, closures):
     ft = FnText(text)
     found = find_closures(ft)
     edits = []
+    todo = []
     for n, spec in closures.items():
+        if isinstance(n, str):
+            # pattern key: every closure whose text (whitespace-insensitive) equals the pattern; none is fine
+            for idx, f in enumerate(found):
+                txt = squash(ft.text[ft.toks[f[0]].start:ft.toks[f[3]].end])
+                if txt == squash(n):
+                    todo.append((idx, spec))
+            continue
         if n >= len(found):
             raise Lost('closure #%d not found' % n)
+        todo.append((n, spec))
+    for n, spec in todo:
         b1, b2, s0, s1, is_block = found[n]
         toks = ft.toks
         hdr = '|' + spec.get('params', '') + '|'
@@ -606,6 +616,19 @@ def insert_hints(text, hints):
                 pos = toks[ft.body_close].start
             else:
                 pos = toks[st[-1][0]].start
+        elif where == 'block_start':
+            # start of the first `{` block of the innermost statement matching pattern
+            s = find_stmt(ft, pattern)
+            if s is None:
+                lost.append('%s %r' % (where, pattern))
+                continue
+            k = s[0]
+            while k <= s[1] and toks[k].text != '{':
+                k += 1
+            if k > s[1]:
+                lost.append('%s %r (no block)' % (where, pattern))
+                continue
+            pos = toks[k].end
         else:
             s = find_stmt(ft, pattern)
             if s is None:
